@@ -61,3 +61,31 @@ Definition out_cm (o : @CmOut Q)
 
 Definition out_opt_zlist (r : option (list Z)) : Z * list Z :=
   match r with None => ((-1)%Z, []) | Some l => (0%Z, l) end.
+
+(* ---- the per-direction arguments construct_mesh hands to origin_and_widths ---- *)
+Definition out_opt_pair (p : option (Q * Q)) : list (Z * Z) :=
+  match p with None => [] | Some ab => [out_q (fst ab); out_q (snd ab)] end.
+Definition out_limits (l : @Limits Q) : list (Z * Z) :=
+  match l with LimNone => [] | LimOne v => [out_q v] | LimTwo a b => [out_q a; out_q b] end.
+Definition out_coe (c : option bool) : Z :=
+  match c with None => (-1)%Z | Some false => 0%Z | Some true => 1%Z end.
+(* (present, sds, [center; s0; s1; pps; lambda_factor; max_buffer], domain, distance,
+    (has vector, vector), sea, limits, (center_on_edge, lambda_from_center, raise_error), cells) *)
+Definition out_oawin (o : option (@OawIn Q))
+  : Z * list (Z * Z) * list (Z * Z) * list (Z * Z) * list (Z * Z) * (Z * list (Z * Z))
+    * list (Z * Z) * list (Z * Z) * (Z * bool * bool) * list Z :=
+  match o with
+  | None => (0%Z, [], [], [], [], (0%Z, []), [], [], ((-1)%Z, false, false), [])
+  | Some i =>
+      (1%Z, map out_q (i_sds i),
+       map out_q [i_center i; fst (i_stretching i); snd (i_stretching i); i_pps i;
+                  i_lambda_factor i; i_max_buffer i],
+       out_opt_pair (i_domain i), out_opt_pair (i_distance i),
+       match i_vector i with None => (0%Z, []) | Some v => (1%Z, map out_q v) end,
+       match i_sea i with None => [] | Some s => [out_q s] end,
+       out_limits (i_limits i),
+       (out_coe (i_center_on_edge i), i_lambda_from_center i, i_raise_error i),
+       i_cell_numbers i)
+  end.
+Definition out_cm_inputs (t : option (@OawIn Q) * option (@OawIn Q) * option (@OawIn Q)) :=
+  [out_oawin (fst (fst t)); out_oawin (snd (fst t)); out_oawin (snd t)].
